@@ -100,7 +100,11 @@ def exps_workload(shard):
     else:
         for i in range(shard["n"]):
             cfg = Cfg(depth=shard.get("depth", 2), **shard.get("cfg", {}))
-            yield f"random{i}", Gen(random.Random(rnd.randrange(1 << 40)), cfg).program()
+            g = Gen(random.Random(rnd.randrange(1 << 40)), cfg)
+            nm = 0
+            if shard.get("macros", True) and g.r.random() < shard.get("macro_share", 0.25):
+                nm = g.r.randint(1, 4)
+            yield f"random{i}", g.program(nmacros=nm)
 
 
 def std_shards(pid, tier, seed, n_quick, n_thorough, nshards=15, catalogue=True, extra=None):
@@ -131,4 +135,49 @@ def try_compile(text, acc, lookup=None, path=None):
         return None
     except Exception as e:
         acc.count("compile_crash:" + type(e).__name__)
+        return None
+
+
+class HarnessTimeout(BaseException):
+    """Raised by TimeLimit inside a monitored call (BaseException: not swallowed by `except Exception`)."""
+
+
+class TimeLimit:
+    """Wall-clock watchdog around one call of the code under observation (main thread only). Its firing is
+    *inconclusive* for every property except where a logical step bound decides (C06)."""
+
+    def __init__(self, seconds):
+        self.seconds = seconds
+
+    def __enter__(self):
+        import signal
+
+        def handler(signum, frame):
+            raise HarnessTimeout()
+
+        self._old = signal.signal(signal.SIGALRM, handler)
+        signal.setitimer(signal.ITIMER_REAL, self.seconds)
+        return self
+
+    def __exit__(self, *a):
+        import signal
+
+        signal.setitimer(signal.ITIMER_REAL, 0)
+        signal.signal(signal.SIGALRM, self._old)
+        return False
+
+
+def safe_decompile(acc, fn, infos, ops, named, seconds=20):
+    """decompile under the watchdog; returns (text, sm) or None (counted)"""
+    try:
+        with TimeLimit(seconds):
+            return fn(infos, ops, named)
+    except HarnessTimeout:
+        acc.count("decompile_watchdog")
+        return None
+    except RecursionError:
+        acc.count("decompile_raised:RecursionError")
+        return None
+    except Exception as e:
+        acc.count("decompile_raised:" + type(e).__name__)
         return None
